@@ -71,7 +71,7 @@ Lemma dc_shape : dc_flat = (dc_pre ++ SRange dc_x dc_xs dc_B :: dc_post)%list.
 Proof. reflexivity. Qed.
 
 Ltac sym H1 H2 :=
-  repeat (cbn -[Z.eqb Z.ltb Z.leb Z.gtb Z.geb Z.add Z.sub Z.mul default_loop];
+  repeat (cbn -[Z.eqb Z.ltb Z.leb Z.gtb Z.geb Z.add Z.sub Z.mul Z.min Z.max default_loop];
           rewrite ?H1, ?H2).
 
 (* The loop, followed by the statements after it, computes the model's loop - whatever values the two loop-carried
@@ -131,14 +131,14 @@ Theorem FixedBufferCleaner_src_eq_model : forall max target cb size offsets,
 Proof.
   intros max target cb size offsets. unfold call, fixed_cleaner.
   rewrite Z.gtb_ltb. destruct (Z.ltb_spec max size) as [E|E]; destruct cb;
-    cbn -[Z.eqb Z.ltb Z.leb Z.gtb Z.geb Z.add Z.sub Z.mul default_cleaner call];
+    cbn -[Z.eqb Z.ltb Z.leb Z.gtb Z.geb Z.add Z.sub Z.mul Z.min Z.max default_cleaner call];
     repeat match goal with
            | |- context [Z.gtb ?a ?b] => rewrite (Z.gtb_ltb a b)
            | |- context [Z.geb ?a ?b] => rewrite (Z.geb_leb a b)
            | |- context [Z.eqb ?a ?b] => destruct (Z.eqb_spec a b)
            | |- context [Z.ltb ?a ?b] => destruct (Z.ltb_spec a b)
            | |- context [Z.leb ?a ?b] => destruct (Z.leb_spec a b)
-           | _ => progress cbn -[Z.eqb Z.ltb Z.leb Z.gtb Z.geb Z.add Z.sub Z.mul default_cleaner call]
+           | _ => progress cbn -[Z.eqb Z.ltb Z.leb Z.gtb Z.geb Z.add Z.sub Z.mul Z.min Z.max default_cleaner call]
            | _ => rewrite DefaultCleaner_src_eq_model
            end;
     first [ reflexivity | exfalso; lia | repeat f_equal; lia ].
